@@ -68,3 +68,35 @@ func ReadAll(r io.Reader) string {
 	b, _ := io.ReadAll(r)
 	return string(b)
 }
+
+// chunkReader: yields c1, then c2 (together with io.EOF when eofWithData), then (0, io.EOF);
+// when fails: yields c1, then (0, error).
+type chunkReader struct {
+	c1, c2      []byte
+	eofWithData bool
+	fails       bool
+	pos         int
+}
+
+func (r *chunkReader) Read(p []byte) (int, error) {
+	k := r.pos
+	r.pos++
+	switch {
+	case k == 0:
+		return copy(p, r.c1), nil
+	case r.fails:
+		return 0, errors.New("read failure")
+	case k == 1:
+		n := copy(p, r.c2)
+		if r.eofWithData {
+			return n, io.EOF
+		}
+		return n, nil
+	}
+	return 0, io.EOF
+}
+
+// ChunkReader: see chunkReader. The full content of a non-failing reader is c1 + c2.
+func ChunkReader(c1, c2 string, eofWithData, fails bool) io.Reader {
+	return &chunkReader{c1: []byte(c1), c2: []byte(c2), eofWithData: eofWithData, fails: fails}
+}
